@@ -508,6 +508,16 @@ def _poke(rng, spec, vol, R, C, bad_of):
         r, c = rng.randrange(R), rng.randrange(C)
         vol[r][c] = bad_of(vol[r][c])
     flat = [x for row in vol for x in row]
+    mxv = spec.get("max_volume")
+    if (all(isinstance(x, (int, float)) and x == x and 0 <= x < 65536 and float(x).is_integer() for x in flat)
+            and isinstance(mxv, (int, float)) and float(mxv).is_integer() and mxv < 65536 and rng.random() < 0.25):
+        # the same numbers as an unsigned integer array (counts read from an instrument file) and an int limit
+        spec["max_volume"] = int(mxv)
+        if isinstance(spec.get("min_volume"), float) and spec["min_volume"].is_integer():
+            spec["min_volume"] = int(spec["min_volume"])
+        ints = [int(x) for x in flat]
+        spec["initial_volumes"] = {"__ndu16__": ints if (trough or rng.random() < 0.5) else [ints[r * C:(r + 1) * C] for r in range(R)]}
+        return
     if trough:
         lay = rng.choice(["list", "tuple", "array1d"])
         spec["initial_volumes"] = (
@@ -618,6 +628,9 @@ def _faulty(rng):
         bad = rng.choice(cands)
         nm = dict(spec["names"]) if isinstance(spec.get("names"), dict) else {}
         nm[bad] = rng.choice(["x", "water", "lw.A01"])
+        if rng.random() < 0.35:
+            # several unknown keys, not necessarily of one type (an index pair, a running number, None)
+            nm[rng.choice([wid(0, C + 1), (0, 1), 13, None, (R, C), "Z99"])] = "y"
         spec["names"] = nm
     elif fault == "percolumn_wrong_length":
         which = rng.choice(["initial_volumes", "column_names"])
